@@ -89,6 +89,22 @@ int mon_func(const mon_args_t *a) {
     opcase_t c;
     hx_reset(idx);
     opcase_init(&c, op);
+    if (a->arg && !strncmp(a->arg, "grid:", 5)) {
+      /* bounded-exhaustive shapes: every (nrows, ncols) in [1,N]^2 for every selected op */
+      int N = atoi(a->arg + 5);
+      long g = idx / n;
+      c.ip[6] = 1 + g % N;
+      c.ip[7] = 1 + (g / N) % N;
+    } else if (a->arg && !strncmp(a->arg, "colpairs:", 9)) {
+      /* every pair of columns of a W-word matrix (forced through ip[4], ip[5]; 1-based) */
+      int W = atoi(a->arg + 9), NC = 64 * W;
+      long g = idx / n;
+      c.ip[7] = NC;
+      c.ip[4] = 1 + g % NC;
+      c.ip[5] = 1 + (g / NC) % NC;
+      static const int RWS[] = {1, 3, 4, 5, 9};
+      c.ip[6] = RWS[(g % NC + (g / NC) % NC + g / ((long)NC * NC)) % 5];
+    }
     op->gen(&c, &r, a->maxdim);
     long live0 = mon_live_effective(), vg0 = vg_errors();
     opcase_place(&c, &r, a->policy);
